@@ -418,11 +418,12 @@ def yaml_cases(r, n):
         lines.insert(pos, bad)
         # byte order marks: at the start of the stream (the one character go-yaml does not count), at the start of later documents and
         # inside scalars (counted like any other character)
+        with_pre = r.random() < 0.4       # (drawn here: a mark at the start of a LINE inside the repeated prefix lines would split them into a document of their own)
         if r.random() < 0.4:
             head = []
-            for j in range(r.randint(0, 3)):
+            for j in range(0 if with_pre else r.randint(0, 3)):
                 head += [("\ufeff" if r.random() < 0.7 else "") + "d%d: %s" % (j, r.choice(["1", '"a\ufeffb"', "[\ufeff1]" if False else "[1]"])), "---"]
-            if r.random() < 0.6:
+            if r.random() < 0.6 and not with_pre:
                 head = ["\ufeff" + head[0]] + head[1:] if head else head
                 if not head:
                     lines[0] = "\ufeff" + lines[0]
@@ -438,7 +439,7 @@ def yaml_cases(r, n):
         if bad in ("x: }", "あ: [é, }"):
             known_at = len(term.join(lines[:pos] + [""]).encode()) + len(bad.encode()) - 1
         pre = Text()
-        if r.random() < 0.4:
+        if with_pre:
             pre.add("p: [1, 2]" + term, r.choice([10, 1500, 2500, 5000]))
         txt = term.join(lines) + r.choice(["", term])
         c = {"kind": "yaml", "text": Text().extend(pre).add(txt), "fault": "yaml", "term": term, "style": "yaml", "size": len(pre), "cb": []}
@@ -671,6 +672,8 @@ def trace_record(c, rec):
     t = {"id": c["id"], "kind": c["kind"], "tr": c.get("tr", "whole"), "text": c["text"].json(), "cb": c.get("cb", []),
          "name": c.get("name", ""), "env": env,
          "obs": {"fmt": o["fmt"], "name": o["name"], "line": o["line"], "ex": o["ex"], "col": o["col"]}}
+    if c["kind"] == "yaml" and isinstance(o.get("msg"), str):
+        t["obs"]["msg"] = o["msg"]        # go-yaml's message: compared with the message of the logged environment call (same error?)
     if "err" in c:
         t["err"] = c["err"]
     if "cls" in c:
